@@ -546,6 +546,29 @@ def r7_biotype(ctx):
                 f"distinct biotypes {sorted(gs)} share value {v} (they would compare equal)", where)
     for must in ("protein_coding", "protein-coding", "mRNA", "misc_RNA", "miscRNA", "pseudogene", "pseudo", "lncRNA", "lnc_RNA"):
         r.check(must in seen_names, "C15.R7", "gene.biotype:Biotype", f"spelling {must}", f"biotype spelling {must!r} missing", where)
+    # membership questions agree with look-up, for every spelling (synonyms are names too) and for non-members - on every
+    # enumeration that offers them
+    from ..interp import ClassTok, Raised
+    from ..lockernel import run
+    asked = 0
+    for cname in ("Biotype", "GFF3ReservedQualifiers", "BioCantorGFF3ReservedQualifiers", "TranscriptFeatures", "GeneFeatures"):
+        try:
+            mem = it.enum(cname)
+        except Exception:
+            continue
+        for meth, universe in (("has_name", list(mem) + ["no_such_name", "", "Protein_Coding"]),
+                               ("has_value", [mv.value for mv in mem.values()] + ["no such value", -1])):
+            try:
+                fm = ctx.repo.fn("util.enum:HasMemberMixin." + meth)
+            except Exception:
+                continue
+            for x in universe:
+                asked += 1
+                want = (x in mem) if meth == "has_name" else any(mv.value == x and type(mv.value) is type(x) for mv in mem.values())
+                k, v = run(it, fm, [x], {}, ClassTok(cname))
+                r.check(k == "ok" and v is want, "C15.R7", fm.qual, f"{cname}.{meth}({x!r})",
+                        f"{cname}.{meth}({x!r}) -> {k}:{v}; {cname}[...] / {cname}(...) look-up says {want}", fm)
+    r.floor("C15.R7", "membership questions", asked, 60)
 
 
 def r8_tables_in_use(ctx):
